@@ -339,6 +339,8 @@ type observed struct {
 func classify(err string) string {
 	has := func(s string) bool { return strings.Contains(err, s) }
 	switch {
+	case has("expected one signature per signer"):
+		return "RSigCount"
 	case has("signers, got"):
 		return "RSignerCount"
 	case has("duplicate signer index"):
